@@ -457,9 +457,8 @@ def check(ctx):
                 continue
             b, st = sites[0]
             conds = rg.must_conditions(b, sequencing=False)
-            want_opt = "arg:%s=Some" % name
-            want_bool = "arg:%s=true" % name
-            if conds in ([want_opt], [want_bool]):
+            from rulelib import cli_value_cond
+            if len(conds) == 1 and cli_value_cond(conds[0], name) in ("Some", "true"):
                 r3.ok("config.%s overridden under exactly %s" % (name, conds[0]))
             else:
                 r3.bad(V(r3.id, rg.id, "override-guard:%s:%s" % (name, ",".join(conds)),
@@ -489,7 +488,8 @@ def check(ctx):
         for c in rg.calls:
             if c.best.endswith("GenerateConfig as core::default::Default>::default") or short_path(c.best).endswith("Default>::default") and "GenerateConfig" in c.best:
                 conds = rg.must_conditions(c.bb)
-                if "arg:config_file=None" in conds:
+                from rulelib import cli_value_cond
+                if any(cli_value_cond(x_, "config_file") == "None" for x_ in conds):
                     r3.ok("default configuration only under config_file=None")
                 else:
                     r3.bad(V(r3.id, rg.id, "default-with-file", "GenerateConfig::default() is used although a configuration file was given (guards %s)" % conds, c.file, c.line))
